@@ -2,7 +2,7 @@ SPECIFICATION GSpec
 CONSTANTS
   Layouts <- Refused
   Impl <- NoDevs
-  Depth = 4
+  Depth = 5
   GenModes <- QuickModes
   GenBy = FALSE
 CONSTRAINT Bound
